@@ -2,6 +2,77 @@ package main
 
 func init() {
 	mutantCatalogue = append(mutantCatalogue, []Mutant{
+		// ---------------------------------------------------------------- C14 style inheritance
+		{Name: "merge-run-drops-highlight", Kind: "breaking", Prop: "C14", File: fSty,
+			Old: `	if override.Highlight != nil {
+		merged.Highlight = override.Highlight
+	} else if base.Highlight != nil {
+		merged.Highlight = base.Highlight
+	}
+
+	return merged`,
+			New: `	return merged`,
+			Expect: "merge-cover:style.mergeRunProperties:Highlight",
+			Why:    "an attribute missing from the hand-written merge list is silently not inherited"},
+		{Name: "merge-run-parent-colour-wins", Kind: "breaking", Prop: "C14", File: fSty,
+			Old: `	if override.Color != nil {
+		merged.Color = override.Color
+	} else if base.Color != nil {
+		merged.Color = base.Color
+	}`,
+			New: `	if base.Color != nil {
+		merged.Color = base.Color
+	} else if override.Color != nil {
+		merged.Color = override.Color
+	}`,
+			Expect: "merge-prec:style.mergeRunProperties:Color",
+			Why:    "precedence inverted for one attribute: the ancestor's colour wins over the style's own"},
+		{Name: "merge-run-child-italic-only-from-parent", Kind: "breaking", Prop: "C14", File: fSty,
+			Old: `	if override.Italic != nil {
+		merged.Italic = override.Italic
+	} else if base.Italic != nil {
+		merged.Italic = base.Italic
+	}`,
+			New: `	if base.Italic != nil {
+		merged.Italic = base.Italic
+	}`,
+			Expect: "merge-cover:style.mergeRunProperties:Italic",
+			Why:    "the style's own setting is dropped"},
+		{Name: "merge-para-args-swapped-at-call", Kind: "breaking", Prop: "C14", File: fSty,
+			Old:    `	mergedStyle.ParagraphPr = mergeParagraphProperties(baseStyle.ParagraphPr, style.ParagraphPr)`,
+			New:    `	mergedStyle.ParagraphPr = mergeParagraphProperties(style.ParagraphPr, baseStyle.ParagraphPr)`,
+			Expect: "merge-prec:style.mergeParagraphProperties:*",
+			Why:    "child and ancestor swapped at the call site: the ancestor wins for every paragraph attribute"},
+		{Name: "merge-parent-not-resolved", Kind: "breaking", Prop: "C14", File: fSty,
+			Old:    `	baseStyle := sm.resolveStyleWithInheritance(style.BasedOn.Val, visited)`,
+			New:    `	baseStyle := sm.GetStyle(style.BasedOn.Val)`,
+			Expect: "resolve-recursive:*",
+			Why:    "only the direct parent is consulted: settings of grandparents are lost"},
+		{Name: "merge-run-nil-override-loses-parent", Kind: "breaking", Prop: "C14", File: fSty,
+			Old: `func mergeRunProperties(base, override *RunProperties) *RunProperties {
+	if base == nil {
+		return override
+	}
+	if override == nil {
+		return base
+	}`,
+			New: `func mergeRunProperties(base, override *RunProperties) *RunProperties {
+	if base == nil || override == nil {
+		return override
+	}`,
+			Expect: "merge-nilarg:style.mergeRunProperties",
+			Why:    "a style without run properties of its own no longer inherits its ancestors' run properties"},
+		{Name: "merge-run-first-non-nil-helper", Kind: "benign", Prop: "C14", File: fSty,
+			Old: `	if override.Strike != nil {
+		merged.Strike = override.Strike
+	} else if base.Strike != nil {
+		merged.Strike = base.Strike
+	}`,
+			New: `	merged.Strike = base.Strike
+	if override.Strike != nil {
+		merged.Strike = override.Strike
+	}`,
+			Why: "same table written as default-then-override"},
 		// ---------------------------------------------------------------- C03 reader ⊇ writer
 		{Name: "reader-spacing-after-from-before", Kind: "breaking", Prop: "C03", File: fDoc,
 			Old:    `				spacing.After = getAttributeValue(t.Attr, "after")`,
